@@ -116,6 +116,9 @@ func (p *Parser) parseNode(node, parent *yaml.Node, group *Group, offsetLine, of
 		for _, n := range unpackNodes(node) {
 			if ret, isEmpty := parseRule(n, offsetLine, offsetColumn, contentLines); !isEmpty {
 				group.Rules = append(group.Rules, ret)
+			} else {
+				// Not a rule: rules can still be nested somewhere under this list item.
+				groups = append(groups, p.parseNode(n, node, nil, offsetLine, offsetColumn, contentLines)...)
 			}
 		}
 		// Handle empty rules within a group.
